@@ -20,6 +20,7 @@ from ..callgraph import CallGraph
 from ..cfg import CFG
 from ..facts import AnalysisBroken, VERIF, walk
 from ..rules import init as init_rule
+from ..rules.guards import path_condition, atoms, entails, show
 
 ROUTER_OWNED = {"Avoid::ConnRef", "Avoid::ShapeRef", "Avoid::JunctionRef", "Avoid::Obstacle", "Avoid::ClusterRef"}
 
@@ -920,6 +921,12 @@ def rule_solver_objects_read_before_freed(chk, prog):
             loops = [a for a in fn.ancestors(d) if a.get("k") in ("ForStmt", "WhileStmt", "DoStmt", "CXXForRangeStmt")]
             inner_ids = {x.get("id") for x in walk(loops[0])} if loops else set()
             bad = None
+            blk = [a for a in fn.ancestors(d) if a.get("k") == "CompoundStmt"]
+            if blk and any(c_.get("k") == "CXXMemberCallExpr" and (c_.get("cname") or "").split("::")[-1] in ("erase", "pop_back") and c_.get("l", 0) >= d.get("l", 0)
+                           for c_ in walk(blk[0])):
+                # the freed object is taken out of its container in the same block: what the container yields later are other objects
+                r.ok("delete %s in %s" % (norm(d["ch"][0]), fn.q), fn.loc(d), "the freed element is erased from its container in the same block")
+                continue
             for u in uses + infos:
                 if u.get("id") in inner_ids:
                     continue
@@ -1008,6 +1015,137 @@ def rule_iterator_survives_growth(chk, prog):
                 if bad:
                     break
             (r.bad if bad else r.ok)("%s in %s" % (d.get("name"), fn.q), fn.loc(d), bad or "")
+
+
+_PREV_REVIEWED = {
+    ("dialect::Tree::addConstraints", "rank"): "a rank of a tree holds at least one node (*std::max_element(rank.begin(), rank.end()) is dereferenced two statements earlier)",
+    ("dialect::Tree::addConstraints", "tallestNodes"): "one entry per rank, and every tree has rank 0 (its root)",
+}
+
+
+def rule_prev_of_end(chk, prog):
+    r = chk.rule("PREV-OF-END-NONEMPTY", "std::prev(c.end()) -- `stop at the last element` -- is evaluated only where c cannot be empty: the path "
+                 "condition entails !c.empty(), or the site is one of the two reviewed ones in Tree::addConstraints; for an empty std::map "
+                 "libstdc++ walks header->parent->parent through a null pointer (AlignmentTable on an empty graph / everything ignored)", floor=3)
+    seen = set()
+    for fn in prog.all_functions():
+        if not fn.body or "/tests/" in fn.file or fn.tmpl == "pattern":
+            continue
+        for c in calls(fn):
+            if not (c.get("cname") or "").startswith("std::prev<"):
+                continue
+            ends = [x for x in walk(c) if x.get("k") == "CXXMemberCallExpr" and (x.get("cname") or "").split("::")[-1] in ("end", "cend")]
+            if not ends or call_object(ends[0]) is None:
+                continue
+            X = norm(call_object(ends[0]))
+            r.count()
+            inst = "std::prev(%s.end()) in %s" % (X, fn.q)
+            if (fn.q, X) in _PREV_REVIEWED:
+                seen.add((fn.q, X))
+                r.ok(inst, fn.loc(c), "reviewed: " + _PREV_REVIEWED[(fn.q, X)])
+                continue
+            pc = path_condition(fn, c, inline=False, early=True)
+            ats = [a for a in atoms(pc) if a.replace(" ", "") == "%s.empty()" % X]
+            ok = bool(ats) and entails(pc, ("not", ("atom", ats[0])))
+            (r.ok if ok else r.bad)(inst, fn.loc(c), "" if ok else "nothing excludes an empty %s here: std::prev of the end of an empty container is undefined" % X)
+    for k in _PREV_REVIEWED:
+        if k not in seen:
+            raise AnalysisBroken("reviewed std::prev site %s/%s not found: table out of date" % k)
+
+
+def rule_thrown_pointer(chk, prog):
+    r = chk.rule("THROWN-POINTER-OUTLIVES-THROW", "a `throw` of a char pointer obtained from c_str() / data() takes it from an object that outlives the "
+                 "throw expression (static or member storage), not from a temporary (`s.str().c_str()`) or a local: the handler -- the "
+                 "library's own handlers print the message -- would read freed memory", floor=2)
+    for fn in prog.all_functions():
+        if not fn.body or "/tests/" in fn.file or fn.tmpl == "pattern":
+            continue
+        for t in fn.nodes():
+            if t.get("k") != "CXXThrowExpr" or not t.get("ch"):
+                continue
+            cs = [x for x in walk(t["ch"][0]) if x.get("k") == "CXXMemberCallExpr" and (x.get("cname") or "").split("::")[-1] in ("c_str", "data")
+                  and "basic_string" in (x.get("cname") or "")]
+            if not cs:
+                continue
+            r.count()
+            obj = call_object(cs[0])
+            bad = None
+            inner = [x.get("k") for x in walk(obj)] if obj is not None else []
+            if "MaterializeTemporaryExpr" in inner or "CXXBindTemporaryExpr" in inner:
+                bad = "the pointer is into a temporary string that is destroyed at the end of the throw expression"
+            else:
+                base = strip(obj)
+                if base is not None and base.get("k") == "DeclRefExpr":
+                    d = [v for v in fn.nodes() if v.get("k") == "VarDecl" and v.get("did") == base.get("did")]
+                    if d and not d[0].get("static") and not d[0].get("parm"):
+                        bad = "the pointer is into the local `%s`, destroyed while the stack unwinds" % d[0].get("name")
+            (r.bad if bad else r.ok)("throw in %s" % fn.q, fn.loc(t), bad or "")
+
+
+def rule_callers_topology_kept(chk, prog):
+    r = chk.rule("CALLERS-TOPOLOGY-KEPT", "ColaTopologyAddon::makeFeasible builds its own topology::Nodes for the non-overlap constraints only when the "
+                 "add-on has none (the assignment to topologyNodes is under topologyNodes.empty()): an add-on constructed from the caller's "
+                 "nodes and routes has routes whose EdgePoints point at THOSE nodes; replacing the vector leaves them without solver variables "
+                 "(null dereference in the first bend constraint) and leaks the replaced nodes", floor=1)
+    fn = prog.fn("topology::ColaTopologyAddon::makeFeasible")
+    asg = []
+    for c in calls(fn):
+        if c.get("k") == "CXXOperatorCallExpr" and (c.get("cname") or "").endswith("operator=") and len(c.get("ch", [])) > 1:
+            l_ = strip(c["ch"][1])
+            if l_ is not None and l_.get("k") == "MemberExpr" and str(l_.get("ref", "")).endswith("ColaTopologyAddon::topologyNodes"):
+                asg.append(c)
+    if not asg:
+        raise AnalysisBroken("makeFeasible no longer assigns topologyNodes: rule out of date")
+    for c in asg:
+        r.count()
+        pc = path_condition(fn, c, inline=False, early=True)
+        ats = [a for a in atoms(pc) if a.replace(" ", "") == "topologyNodes.empty()"]
+        ok = bool(ats) and entails(pc, ("atom", ats[0]))
+        (r.ok if ok else r.bad)("topologyNodes = ... in makeFeasible", fn.loc(c), "" if ok else
+                                "the add-on's nodes are replaced whatever they were (condition %s): routes handed over by the caller keep pointing at the old nodes" % show(pc))
+
+
+def rule_generated_constraints_freed(chk, prog):
+    r = chk.rule("GENERATED-CONSTRAINTS-FREED", "constraints that a libdialect / libtopology function has `new`ed into a vector for one projection or "
+                 "solve are freed by it: (a) Graph::projectOntoSepCo -- every way out after SepCo::generateColaConstraints passes a `delete` of "
+                 "entries of the vector that received them (as its sibling applyProjSeq does for Projection::generateColaConstraints); (b) "
+                 "setupOrthogonalLayoutConstraints -- a vpsc::Constraint erased from `valid`, the only list that owns it, is deleted first", floor=2)
+    fn = prog.fn("dialect::Graph::projectOntoSepCo")
+    g = CFG(fn)
+    gen = [c for c in calls(fn) if (c.get("cname") or "").endswith("SepCo::generateColaConstraints")]
+    if not gen:
+        raise AnalysisBroken("projectOntoSepCo no longer calls SepCo::generateColaConstraints: rule out of date")
+    r.count()
+    tgt = norm(call_args(gen[0])[1])
+    dels = [n for n in fn.nodes() if n.get("k") == "CXXDeleteExpr" and n.get("ch") and tgt in norm(n["ch"][0])]
+    bad = None
+    if not dels:
+        bad = "the constraints generated into %s are never deleted (the vector is a local copy of the options: nobody else can)" % tgt
+    else:
+        rets = [n for n in fn.nodes() if n.get("k") == "ReturnStmt"]
+        must = []
+        for d in dels:
+            lp = [a for a in fn.ancestors(d) if a.get("k") in ("ForStmt", "WhileStmt", "CXXForRangeStmt")]
+            # a delete inside a loop: passing the loop (its condition) is what every path has to do; how often the body runs is the data's business
+            must.append(strip(lp[0]["cond"])["id"] if lp and lp[0].get("cond") is not None else d["id"])
+        for rt in rets:
+            w = g.search([g.after(gen[0])], blocked=must, targets=[rt["id"]])
+            if w:
+                bad = "a return is reached after generateColaConstraints without deleting the generated entries (%s)" % g.describe(w)
+    (r.bad if bad else r.ok)("projectOntoSepCo", fn.loc(gen[0]), bad or "")
+    fn = prog.fn("topology::setupOrthogonalLayoutConstraints")
+    g = CFG(fn)
+    ers = [c for c in calls(fn) if (c.get("cname") or "").split("::")[-1] == "erase" and call_object(c) is not None and norm(call_object(c)) == "valid"]
+    if not ers:
+        raise AnalysisBroken("setupOrthogonalLayoutConstraints no longer erases from `valid`: rule out of date")
+    for e in ers:
+        r.count()
+        dels = [n for n in fn.nodes() if n.get("k") == "CXXDeleteExpr" and n.get("ch") and "Constraint" in str((strip(n["ch"][0]) or {}).get("t", ""))]
+        blk = [a for a in fn.ancestors(e) if a.get("k") == "CompoundStmt"]
+        same = [d for d in dels if blk and any(x is d for x in walk(blk[0]))]
+        ok = bool(same) and g.must_precede([d["id"] for d in same], e["id"]) is None
+        (r.ok if ok else r.bad)("valid.erase in setupOrthogonalLayoutConstraints", fn.loc(e), "" if ok else
+                                "the constraint is dropped from the owning list without being deleted")
 
 
 def rule_vertex_unlisted(chk, prog):
@@ -1269,6 +1407,10 @@ def run(chk):
     chk.guard(rule_vertex_unlisted, chk, prog)
     chk.guard(rule_solver_objects_read_before_freed, chk, prog)
     chk.guard(rule_iterator_survives_growth, chk, prog)
+    chk.guard(rule_prev_of_end, chk, prog)
+    chk.guard(rule_callers_topology_kept, chk, prog)
+    chk.guard(rule_generated_constraints_freed, chk, prog)
+    chk.guard(rule_thrown_pointer, chk, prog)
     chk.guard(rule_ctor_order, chk, prog, cg)
     chk.guard(rule_connend_deref, chk, prog)
     chk.guard(rule_queued_ends_detached, chk, prog)
